@@ -80,6 +80,7 @@ FLOORS = {
     "quick": {"judged": 1500000, "judged_loads": 20000, "layouts": 480,
               "loader_reuse_loads": 500,
               "judged_fragment": 3000, "fragment_rejected": 3000,
+              "fragment_reused_loader": 3000,
               "accepted": 20000, "judged_ispath": 190000,
               "judged_urljoin": 700000, "judged_urlnormalize": 170000,
               "judged_urldefrag": 190000, "judged_normalizeurl": 170000},
@@ -602,6 +603,28 @@ def do_load(ZConfig, what, entry, spelling, schema=None):
     return ("ok", v)
 
 
+def loader_load(ZConfig, loader, what, entry, spelling):
+    """Like do_load, through a given (long-lived) loader object."""
+    f = None
+    try:
+        try:
+            if entry.startswith("fobj"):
+                f = open(spelling, encoding="utf-8")
+                v = loader.loadFile(f)
+            else:
+                v = loader.loadURL(spelling)
+            if what != "schema":
+                v = v[0]
+        finally:
+            if f is not None:
+                f.close()
+    except ZConfig.ConfigurationError as e:
+        return ("reject", "config", type(e).__name__, str(e)[:300])
+    except Exception as e:  # noqa
+        return ("reject", "internal", type(e).__name__, str(e)[:300])
+    return ("ok", v)
+
+
 def check_urls(events, expected_paths):
     """Every recorded URL is file:/// and decodes to the intended file
     (compared as multisets: the statement fixes where references resolve,
@@ -764,13 +787,24 @@ def run_fragments(ctx, ZConfig, lay, only=None):
     else:
         todo = fragment_variants(model, ctx.rng(
             "frag", model["tree"], len(model["cfg"]), len(model["sch"])))
+    # loader objects that serve every variant of this layout: a refused
+    # reference must be refused every time it is asked for, and must leave
+    # nothing behind that changes a later load of the clean resource
+    ll = {"schema": ZConfig.loader.SchemaLoader(),
+          "config": ZConfig.loader.ConfigLoader(schema)}
     for v in todo:
         what, frag, entry = v["what"], v["frag"], v["entry"]
         path = lay.sch_paths[0] if what == "schema" else lay.cfg_paths[0]
         restore = None
+        again = []
+        # a SchemaLoader keeps the schemas it has loaded (by URL, on
+        # purpose) while this check rewrites the files between variants:
+        # it gets a loader per variant, the ConfigLoader lives on
+        ll["schema"] = ZConfig.loader.SchemaLoader()
         try:
             if v["where"] == "top-url":
                 sp = v["form"] + pathname2url(path) + "#" + frag
+                clean_sp = v["form"] + pathname2url(path)
             else:
                 kind, j = v["kind"], v["child"]
                 p = model[kind][j]["parent"]
@@ -780,14 +814,43 @@ def run_fragments(ctx, ZConfig, lay, only=None):
                     lay.render_sch
                 restore = (ppath, render(p))
                 _write(ppath, render(p, (j, frag)))
-                sp = top_spelling(lay, entry, path, cwd)
+                sp = clean_sp = top_spelling(lay, entry, path, cwd)
             res.evaluations += 1
             with Cwd(cwd):
                 out = do_load(ZConfig, what, entry, sp, schema)
+                if frag != "":
+                    again = [loader_load(ZConfig, ll[what], what, entry, sp)
+                             for _ in (1, 2)]
         finally:
             if restore:
                 _write(*restore)
         case = {"op": "fragment", "model": model, "variant": v}
+        if again:
+            res.count("fragment_reused_loader")
+            with Cwd(cwd):
+                fresh = do_load(ZConfig, what, entry, clean_sp, schema)
+                after = loader_load(ZConfig, ll[what], what, entry,
+                                    clean_sp)
+            problem = None
+            for n_, o_ in enumerate(again):
+                if not (o_[0] == "reject" and o_[1] == "config"):
+                    problem = ("request %d for the reference with '#%s' on "
+                               "one loader object was %s" % (
+                                   n_ + 1, frag, "accepted" if o_[0] == "ok"
+                                   else "answered with %s" % o_[2]))
+                    break
+            if problem is None and fresh[0] != after[0]:
+                problem = ("after the refused reference the same loader "
+                           "object answers the clean resource with %s, a "
+                           "fresh loader with %s" % (
+                               after[0] if after[0] == "ok" else after[2:],
+                               fresh[0] if fresh[0] == "ok" else fresh[2:]))
+            if problem:
+                res.violate("fragment-and-loader-reuse", case,
+                            expected="refused each time; later loads as "
+                            "with a fresh loader", observed=problem,
+                            detail=problem,
+                            vsig="F-reuse|%s|%s" % (v["where"], what))
         if frag == "":
             # 'x#': no fragment identifier to speak of; not pinned
             res.count("unjudged")
